@@ -9,7 +9,8 @@ LUA_PAGES = ["{{#invoke:counter|main}}", "{{#invoke:glob|main}} {{#invoke:glob|m
              "{{#invoke:strmeta|main}}", "{{#invoke:tbllib|main}}", "{{#invoke:mwlib|main}}", "{{#invoke:mwtext|main}}",
              "{{#invoke:uselib|main}}{{#invoke:uselib|main}}", "{{#invoke:usedata|main}}", "{{#invoke:args|main|q}}",
              "{{#invoke:osdate|main}}", "{{#invoke:mathlib|main}}", "{{#invoke:pkg|main}}", "{{cnt}}",
-             "{{#invoke:bad|main}} then {{#invoke:counter|main}}", "{{#invoke:echo|main|a|b=c}}", "{{#invoke:pp|main|k}}"]
+             "{{#invoke:bad|main}} then {{#invoke:counter|main}}", "{{#invoke:echo|main|a|b=c}}", "{{#invoke:pp|main|k}}",
+             "{{#invoke:nesta|main}}", "{{#invoke:nesta2|main}}", "{{#invoke:probe2|main}}", "{{#invoke:probe2|main}} {{#invoke:nesta|main}}"]
 TPL_PAGES = ["{{a|x}} {{b|p|x=q}}", "{{deep|w}} {{missing|y}}", "{{loop}} after", "{{m1}}", "<nowiki>{{a}}</nowiki> {{a|<nowiki>n</nowiki>}}",
              "{{#if:x|{{a|1}}|{{a|2}}}}", "== H ==\n* {{a|i}}\n{{list}}", "<foo>x</foo> <b>y</b>", "{{{1|d}}} [[l|{{a|z}}]]",
              "{{inv|q}}", "{{#expr: 1 +}} {{#expr:2*3}}", "{|\n| {{a|c}}\n|}", "''x'' '''y''' <ref>r</ref>"]
